@@ -492,6 +492,17 @@ impl<'a> Explorer<'a> {
 		} else {
 			rep.outcome("live:long-lived-node-agrees");
 		}
+		// what the fingerprint does not read (kernel and output data behind the hashes): the long-lived node
+		// must pass the chain's own validation, now and after it was closed and opened again
+		let case = json!({"instance": self.inst, "events": prefix.iter().map(|e| e.show(self.tree)).collect::<Vec<_>>(), "live": true, "probes_between_events": self.live_check >= 2});
+		if let Err(e) = live.chain().validate(true) {
+			rep.violation(format!("live:long-lived-node-fails-validation:{}", err_class(&format!("{:?}", e))), format!("Chain::validate(fast) on the chain object that lived through the whole history = {:?}", e), case.clone());
+		} else if !prefix.is_empty() && matches!(prefix.last(), Some(Ev::B(_))) {
+			let _ = live.apply(&Ev::Reopen);
+			if let Err(e) = live.chain().validate(true) {
+				rep.violation(format!("live:long-lived-node-fails-validation-after-restart:{}", err_class(&format!("{:?}", e))), format!("Chain::validate(fast) after closing and reopening the long-lived node = {:?}", e), case);
+			}
+		}
 		drop(live);
 		let _ = std::fs::remove_dir_all(&d);
 	}
